@@ -42,6 +42,7 @@ class Site:
     classes: Tuple[str, ...]   # exception classes it may raise
     what: str                  # short description
     key: str = ''              # stable construct key (function + normalised text)
+    need_all: bool = False     # every class must be caught (the classes are not alternatives of one failure)
 
     def line(self) -> int:
         return getattr(self.node, 'lineno', 0)
@@ -103,8 +104,9 @@ def collect_sites(repo: Repo, rel: str, qualname: str, *, const_names: Optional[
             elif d in ('FJMVersion',):
                 out.append(Site(rel, qualname, 'call', n, ('ValueError',), norm(n)))
             elif isinstance(n.func, ast.Subscript) and 'op_string_to_function' in norm(n.func.value):
-                out.append(Site(rel, qualname, 'call', n, ('ArithmeticError', 'ValueError', 'TypeError', 'MemoryError', 'OverflowError'),
-                                'call through op_string_to_function'))
+                # user arithmetic: x / 0 (ZeroDivisionError), 1 << -1 (ValueError), 1 << 2**70 (OverflowError), 1 << 2**40 (MemoryError)
+                out.append(Site(rel, qualname, 'call', n, ('ZeroDivisionError', 'ValueError', 'OverflowError', 'MemoryError'),
+                                'call through op_string_to_function', need_all=True))
     for s in out:
         s.key = f'{qualname}:{s.what}'
     return out
